@@ -11,6 +11,7 @@ from vlib import run as R
 from vlib import strings as S
 
 ID = "C20"
+PROBE_REQUIRED = True      # part of this property is decided on the generator itself, through harness/genprobe
 PROP_FILE = "Props/C20.v"
 RULE = ("items: every rejection rule of the property (non-enum item, data-carrying variant, lifetime parameter, repeated single-use "
         "attribute at enum / variant / field level within one attribute and across attributes, two default variants, default / "
